@@ -121,21 +121,33 @@ func (s *zzC19Svc) Exchange(req *dns.Msg) (resp *dns.Msg, err error) {
 			}
 
 			x := hex.EncodeToString(h[:])
-			switch s.rng.Intn(7) {
-			case 0: // a hash cut in two strings
-				strs = append(strs, x[:32], x[32:])
-			case 1: // one digit short
-				strs = append(strs, x[:63])
-			case 2: // one character too many
-				strs = append(strs, " "+x)
-			case 3: // right length, not hexadecimal
-				i := s.rng.Intn(64)
-				strs = append(strs, x[:i]+"g"+x[i+1:])
-			case 4: // two glued together
-				strs = append(strs, x+x)
-			case 5: // only the prefix
-				strs = append(strs, x[:4])
-			default:
+			// Two kinds per unlisted hash.  Several of them START with the
+			// complete hash: only a string EQUAL to a full hash is one.
+			for n := 0; n < 2; n++ {
+				switch s.rng.Intn(11) {
+				case 0: // a hash cut in two strings
+					strs = append(strs, x[:32], x[32:])
+				case 1: // one digit short
+					strs = append(strs, x[:63])
+				case 2: // leading space
+					strs = append(strs, " "+x)
+				case 3: // right length, not hexadecimal
+					i := s.rng.Intn(64)
+					strs = append(strs, x[:i]+"g"+x[i+1:])
+				case 4: // two glued together
+					strs = append(strs, x+x)
+				case 5: // only the prefix
+					strs = append(strs, x[:4])
+				case 6: // one more byte
+					strs = append(strs, x+"00")
+				case 7: // trailing space
+					strs = append(strs, x+" ")
+				case 8: // trailing text
+					strs = append(strs, x+" malware")
+				case 9: // glued to a listed-looking other value
+					strs = append(strs, x+strings.Repeat("0", 64))
+				default:
+				}
 			}
 			s.nJunk++
 		}
